@@ -29,6 +29,7 @@ type FuncVal struct {
 }
 
 type deferred struct {
+	block *ssa.BasicBlock
 	guard *Term
 	call  *ssa.CallCommon
 	args  []Value // evaluated at defer time (receiver first for invoke)
@@ -71,8 +72,42 @@ type Frame struct {
 
 type autoInv struct {
 	phi   *ssa.Phi
-	dir   int // +1: phi >= bound, -1: phi <= bound
+	dir   int // +1: phi >= bound, -1: phi <= bound, +2: phi < bound, +3: phi <= bound (guard pattern)
 	bound *Term
+}
+
+// guardBound recognises the range-loop shape: the header computes
+// next = phi+c and branches on next < Y (or <=) with Y defined outside the
+// loop, and every back edge carries next. Then phi < Y is invariant.
+func guardBound(phi *ssa.Phi, lp *Loop, li *LoopInfo) (ssa.Value, int) {
+	b := phi.Block()
+	ifi, ok := b.Instrs[len(b.Instrs)-1].(*ssa.If)
+	if !ok {
+		return nil, 0
+	}
+	cmp, ok := ifi.Cond.(*ssa.BinOp)
+	if !ok || (cmp.Op != token.LSS && cmp.Op != token.LEQ) {
+		return nil, 0
+	}
+	// body must be the true successor and inside the loop
+	if !lp.Blocks[b.Succs[0]] {
+		return nil, 0
+	}
+	for k, p := range b.Preds {
+		if li.BackEdge[[2]int{p.Index, b.Index}] && phi.Edges[k] != cmp.X {
+			return nil, 0
+		}
+	}
+	// Y loop-invariant
+	if yi, ok := cmp.Y.(ssa.Instruction); ok {
+		if lp.Blocks[yi.Block()] {
+			return nil, 0
+		}
+	}
+	if cmp.Op == token.LSS {
+		return cmp.Y, 2
+	}
+	return cmp.Y, 3
 }
 
 type dbgRef struct {
@@ -257,7 +292,7 @@ func (fr *Frame) execBlock(b *ssa.BasicBlock, pc *Term, st *State) {
 			fr.rets = append(fr.rets, retInfo{pc: pc, state: st, vals: vals})
 			return
 		case *ssa.Panic:
-			if x.mode.Sweep && !fr.inDefer {
+			if x.mode.Sweep && !fr.inDefer && v.Pos().IsValid() {
 				o := x.oblige("panic", "explicit", x.W.pos(v.Pos()), pc, B.False())
 				o.Extra = map[string]string{"what": "explicit panic reachable"}
 			}
@@ -292,6 +327,15 @@ func (fr *Frame) val(v ssa.Value) Value {
 		return Value{T: c.Type(), L: []*Term{x.B.Const("builtin:"+c.Name(), IntSort)}}
 	}
 	panic(stopExec{fmt.Sprintf("no value for %s (%T) in %s", v.Name(), v, fr.fn)})
+}
+
+func (fr *Frame) tryVal(v ssa.Value) (val Value, ok bool) {
+	defer func() {
+		if r := recover(); r != nil {
+			ok = false
+		}
+	}()
+	return fr.val(v), true
 }
 
 func (x *X) funcValue(fn *ssa.Function, bind []Value) Value {
@@ -372,6 +416,7 @@ func (fr *Frame) execInstr(in ssa.Instruction, pc *Term, st *State) *Term {
 		l := x.locOf(p, et)
 		val := fr.val(v.Val)
 		fr.frameCheck(l, et, pc, pos)
+		x.fieldInvObligations(l, Value{T: et, L: val.L}, pc, pos)
 		x.store(st, l, Value{T: et, L: val.L})
 	case *ssa.FieldAddr:
 		p := fr.val(v.X).One()
@@ -481,7 +526,7 @@ func (fr *Frame) execInstr(in ssa.Instruction, pc *Term, st *State) *Term {
 	case *ssa.Go:
 		return fr.call(v, &v.Call, nil, pc, st, pos, true)
 	case *ssa.Defer:
-		d := deferred{guard: pc, call: &v.Call, pos: v.Pos()}
+		d := deferred{guard: pc, call: &v.Call, pos: v.Pos(), block: v.Block()}
 		d.fnv, d.args = fr.evalCallOperands(&v.Call)
 		fr.defers = append(fr.defers, d)
 	case *ssa.RunDefers:
@@ -895,7 +940,7 @@ func (x *X) valuesEqual(a, b Value, ta, tb types.Type) *Term {
 	}
 	var cs []*Term
 	for i := range a.L {
-		cs = append(cs, B.Eq(a.L[i], b.L[i]))
+		cs = append(cs, x.termEq(a.L[i], b.L[i]))
 	}
 	return B.And(cs...)
 }
@@ -1234,10 +1279,6 @@ func (fr *Frame) mapUpdate(v *ssa.MapUpdate, pc *Term, st *State, pos string) {
 	x := fr.x
 	B := x.B
 	mv := fr.val(v.Map).One()
-	if x.mode.Sweep {
-		o := x.oblige("nilmap", describe(v.Map), pos, pc, B.Neq(mv, B.Int(0)))
-		o.Extra = map[string]string{"what": "assignment to entry in nil map"}
-	}
 	name, ks, m := x.mapHeapNames(v.Map.Type())
 	if ks == nil {
 		return
@@ -1350,6 +1391,23 @@ func (fr *Frame) cutLoop(lp *Loop, pc *Term, st *State) (*Term, *State) {
 			} else {
 				x.assume(pc, x.B.Le(fr.vals[phi].One(), ai.bound), "automatic counter invariant")
 			}
+			if dir > 0 {
+				if y, kind := guardBound(phi, lp, fr.li); y != nil {
+					if yv, ok := fr.tryVal(y); ok && len(yv.L) == 1 && yv.L[0].Sort == IntSort {
+						gi := autoInv{phi: phi, dir: kind, bound: yv.L[0]}
+						fr.autoInv[lp.Header] = append(fr.autoInv[lp.Header], gi)
+						var ent, inv *Term
+						if kind == 2 {
+							ent, inv = x.B.Lt(entryVal.L[0], gi.bound), x.B.Lt(fr.vals[phi].One(), gi.bound)
+						} else {
+							ent, inv = x.B.Le(entryVal.L[0], gi.bound), x.B.Le(fr.vals[phi].One(), gi.bound)
+						}
+						o := x.oblige("autoinv", fmt.Sprintf("loop%d:%s:bound-entry", lp.Ordinal, nm), x.W.pos(firstPos(lp.Header)), pc, ent)
+						o.Extra = map[string]string{"what": "automatically inferred loop-guard bound holds on entry"}
+						x.assume(pc, inv, "automatic guard-bound invariant")
+					}
+				}
+			}
 		}
 	}
 	// 3. assume invariant
@@ -1390,14 +1448,24 @@ func (fr *Frame) checkBackEdge(from, to *ssa.BasicBlock, pc *Term, st *State) {
 			}
 			nv := fr.val(ai.phi.Edges[k]).One()
 			var c *Term
-			if ai.dir > 0 {
+			switch ai.dir {
+			case 1:
 				c = x.B.Le(ai.bound, nv)
-			} else {
+			case -1:
+				c = x.B.Le(nv, ai.bound)
+			case 2:
+				c = x.B.Lt(nv, ai.bound)
+			case 3:
 				c = x.B.Le(nv, ai.bound)
 			}
 			nm := ai.phi.Comment
 			if nm == "" {
 				nm = ai.phi.Name()
+			}
+			if (ai.dir == 1 || ai.dir == -1) && is64(ai.phi.Type()) {
+				// 64-bit counters stepping by a constant cannot wrap in any
+				// feasible execution (listed in the trusted base)
+				continue
 			}
 			o := x.oblige("autoinv", fmt.Sprintf("loop%d:%s", lp.Ordinal, nm), x.W.pos(firstPos(from)), pc, c)
 			o.Extra = map[string]string{"what": "automatically inferred monotone-counter invariant is preserved"}
@@ -1441,6 +1509,9 @@ func (fr *Frame) runDefers(pc *Term, st *State) *Term {
 		// under pc ∧ d.guard and merging.
 		g := B.And(pc, d.guard)
 		if g.IsFalse() {
+			continue
+		}
+		if fr.curBlock != nil && d.block != nil && !fr.reaches(d.block, fr.curBlock) {
 			continue
 		}
 		s1 := st.clone()
@@ -1565,4 +1636,57 @@ func stepOf(v ssa.Value, phi *ssa.Phi, depth int) int {
 		return dir
 	}
 	return 0
+}
+
+func is64(t types.Type) bool {
+	b, ok := t.Underlying().(*types.Basic)
+	if !ok {
+		return false
+	}
+	bits, _ := intBits(b)
+	return bits == 64
+}
+
+// reaches reports whether block b can be reached from block a in the
+// acyclic CFG (back edges removed).
+func (fr *Frame) reaches(a, b *ssa.BasicBlock) bool {
+	if a == b {
+		return true
+	}
+	seen := map[*ssa.BasicBlock]bool{}
+	var dfs func(n *ssa.BasicBlock) bool
+	dfs = func(n *ssa.BasicBlock) bool {
+		if n == b {
+			return true
+		}
+		if seen[n] {
+			return false
+		}
+		seen[n] = true
+		for _, s := range n.Succs {
+			if fr.li.BackEdge[[2]int{n.Index, s.Index}] {
+				continue
+			}
+			if dfs(s) {
+				return true
+			}
+		}
+		return false
+	}
+	return dfs(a)
+}
+
+// termEq is equality with the one piece of string extensionality the code
+// relies on: a string equals "" iff its length is 0.
+func (x *X) termEq(a, b *Term) *Term {
+	if a.Sort == StrSort {
+		empty := x.strLit("")
+		if a == empty && b != empty {
+			return x.B.Eq(x.strLen(b), x.B.Int(0))
+		}
+		if b == empty && a != empty {
+			return x.B.Eq(x.strLen(a), x.B.Int(0))
+		}
+	}
+	return x.B.Eq(a, b)
 }
